@@ -4,9 +4,11 @@ go 1.24.2
 
 require (
 	example.com/scion-time v0.0.0
+	github.com/HdrHistogram/hdrhistogram-go v1.1.2
 	github.com/google/gopacket v1.1.19
 	github.com/miscreant/miscreant.go v0.0.0-20200214223636-26d376326b75
 	github.com/prometheus/client_golang v1.21.1
+	github.com/quic-go/quic-go v0.50.1
 	github.com/scionproto/scion v0.12.0
 	golang.org/x/sys v0.31.0
 	google.golang.org/grpc v1.71.1
@@ -14,7 +16,6 @@ require (
 )
 
 require (
-	github.com/HdrHistogram/hdrhistogram-go v1.1.2 // indirect
 	github.com/beorn7/perks v1.0.1 // indirect
 	github.com/cespare/xxhash/v2 v2.3.0 // indirect
 	github.com/dchest/cmac v1.0.0 // indirect
@@ -29,7 +30,6 @@ require (
 	github.com/prometheus/client_model v0.6.1 // indirect
 	github.com/prometheus/common v0.63.0 // indirect
 	github.com/prometheus/procfs v0.16.0 // indirect
-	github.com/quic-go/quic-go v0.50.1 // indirect
 	github.com/remyoudompheng/bigfft v0.0.0-20230129092748-24d4a6f8daec // indirect
 	github.com/uber/jaeger-client-go v2.30.0+incompatible // indirect
 	github.com/uber/jaeger-lib v2.4.1+incompatible // indirect
